@@ -84,7 +84,7 @@ Record parser := mkP {
 Inductive presult (A : Type) :=
 | ROk (a : A)
 | RErr (e : perr) (p : parser)
-| RCrash (c : pulled).       (* PHang / PPanic / PDeadlock from the lexer *)
+| RCrash (c : pulled).       (* PHang / PPanic / PDeadlock from the lexer; PBudget from parse_loop *)
 Arguments ROk {A}. Arguments RErr {A}. Arguments RCrash {A}.
 
 Definition node_errorf (k : nkind) (msg : bytes) : perr :=
@@ -526,7 +526,7 @@ Definition parse_step (fuel : nat) (p : parser) : presult parser :=
 (** parser.parse *)
 Fixpoint parse_loop (fuel : nat) (p : parser) : presult parser :=
   match fuel with
-  | O => RCrash PHang
+  | O => RCrash PBudget
   | S f =>
     match parse_step fuel p with
     | ROk p1 => if toktype_eqb (t_typ (p_token p1)) TEOF then ROk p1 else parse_loop f p1
